@@ -998,6 +998,32 @@ def gen_sizes():
         f = method(t1d, cls, 'forward')
         strs(tag + '_self_writes', sorted(set(ast.unparse(t) for st in ast.walk(f) if isinstance(st, (ast.Assign, ast.AugAssign))
                                               for t in (st.targets if isinstance(st, ast.Assign) else [st.target]) if ast.unparse(t).startswith('self.'))))
+    # --- statements that write INTO a function parameter (subscript stores, augmented assignments, trailing-underscore methods) anywhere
+    # in the library: what a caller hands in is never written to (C15, C10); only the two integer `o_dim -= 1` of the axis helpers exist
+    hits = []
+    for rel in ('dwt/lowlevel.py', 'dwt/transform1d.py', 'dwt/transform2d.py', 'dtcwt/lowlevel.py', 'dtcwt/transform_funcs.py', 'dtcwt/transform2d.py',
+                'scatternet/lowlevel.py', 'scatternet/layers.py', 'utils.py'):
+        tree = ast.parse(open(os.path.join(rt.REPO, 'pytorch_wavelets', rel)).read())
+
+        def base(e):
+            while isinstance(e, (ast.Subscript, ast.Attribute)):
+                e = e.value
+            return e.id if isinstance(e, ast.Name) else None
+        for fn in ast.walk(tree):
+            if not isinstance(fn, ast.FunctionDef):
+                continue
+            params = {a_.arg for a_ in fn.args.args + fn.args.kwonlyargs} - {'self', 'ctx', 'cls'}
+            if fn.args.vararg:
+                params.add(fn.args.vararg.arg)
+            for st in ast.walk(fn):
+                if isinstance(st, ast.Assign) and any(isinstance(t_, ast.Subscript) and base(t_) in params for t_ in st.targets):
+                    hits.append('%s: %s' % (fn.name, ast.unparse(st)[:60]))
+                elif isinstance(st, ast.AugAssign) and base(st.target) in params:
+                    hits.append('%s: %s' % (fn.name, ast.unparse(st)[:60]))
+                elif isinstance(st, ast.Call) and isinstance(st.func, ast.Attribute) and st.func.attr.endswith('_') and not st.func.attr.endswith('__') \
+                        and base(st.func.value) in params:
+                    hits.append('%s: %s' % (fn.name, ast.unparse(st)[:60]))
+    strs('writes_into_parameters', [h.replace('"', "'") for h in hits])
     out.append('\nend WV.Gen.Sizes\n')
     return _write(os.path.join(GEN, 'Sizes.lean'), '\n'.join(out))
 
